@@ -254,13 +254,17 @@ impl TypeCollector {
             }
         }
 
-        // Distinct event names can lead to the same function name (`user-login`, `user_login`)
-        let names: Vec<String> = contexts
+        // Distinct event names can lead to the same function name (`user-login`, `user_login`).
+        // The suffixes are handed out in the order of the event names, not of the emit sites, so
+        // that moving a function does not change which listener is called onUserLogin2
+        let mut by_event_name: Vec<usize> = (0..contexts.len()).collect();
+        by_event_name.sort_by(|a, b| contexts[*a].event_name.cmp(&contexts[*b].event_name));
+        let names: Vec<String> = by_event_name
             .iter()
-            .map(|context| context.ts_function_name.clone())
+            .map(|index| contexts[*index].ts_function_name.clone())
             .collect();
-        for (context, name) in contexts.iter_mut().zip(unique_function_names(&names)) {
-            context.ts_function_name = name;
+        for (index, name) in by_event_name.iter().zip(unique_function_names(&names)) {
+            contexts[*index].ts_function_name = name;
         }
         contexts
     }
